@@ -12,16 +12,16 @@ fn within(reported: usize, retained: usize, components: usize) -> bool {
 }
 
 // @h props=C16,C04:t tier=quick family=A mem=16 timeout=1800 role=space.rssupportplain
-// @bound RSSupportPlain<256/512> with 0..=6 superblock records and four select-sample buffers of 0..=32 entries each, all lengths symbolic and independent; KiB/MiB/GiB are the byte count scaled
+// @bound RSSupportPlain<256/512> with 0..=3 superblock records and four select-sample buffers of 0..=32 entries each, all lengths symbolic and independent; KiB/MiB/GiB are the byte count scaled
 // @funcs RSSupportPlain::space_usage_byte, SuperblockPlain::space_usage_byte, Box<[T]>::space_usage_byte, SpaceUsage::space_usage_KiB, SpaceUsage::space_usage_MiB, SpaceUsage::space_usage_GiB
 #[kani::proof]
 #[kani::unwind(34)]
 fn c16_rssupportplain() {
-    let sb = kani::vec::any_vec::<[u128; 4], 6>();
+    let sb = kani::vec::any_vec::<[u128; 4], 3>();
     let nsb = sb.len();
-    let mut sbs: Vec<SuperblockPlain> = Vec::with_capacity(6);
+    let mut sbs: Vec<SuperblockPlain> = Vec::with_capacity(3);
     let mut j = 0;
-    while j < 6 {
+    while j < 3 {
         if j < nsb {
             sbs.push(SuperblockPlain { counters: sb[j] });
         }
@@ -41,7 +41,7 @@ fn c16_rssupportplain() {
     assert!(rs.space_usage_KiB() == rep as f64 / 1024.0);
     assert!(rs.space_usage_MiB() == rep as f64 / (1024.0 * 1024.0));
     assert!(rs.space_usage_GiB() == rep as f64 / (1024.0 * 1024.0 * 1024.0));
-    kani::cover!(nsb == 6, "largest directory");
+    kani::cover!(nsb == 3, "largest directory");
     kani::cover!(rs.select_samples[3].len() == 32 && nsb == 0, "only one sample buffer is large");
     core::mem::forget(rs);
     core::mem::forget(sb);
